@@ -15,6 +15,7 @@ from dalimc.aio.engine import execute, Caller
 from . import _cmdspace as S
 
 ID = "C18"
+OPTIMISED_STRIDE = {"quick": 8, "thorough": 8}      # every k-th shard once more in an interpreter started with -O
 LEVEL = "exploration"
 ENGINE = "E1"
 TECHNIQUE = "exhaustive enumeration of commands, frames, sequence-number histories and report codes through the real drivers with bytes captured at the transport seam vs reference encoders"
